@@ -1,7 +1,7 @@
 SPECIFICATION GenSpec
 CONSTANTS
   Kinds <- KindsQ
-  Alpha <- AlphaQ
+  Alpha <- AlphaG
   MaxLen = 3
   Slacks <- SlacksQ
   Grants <- GrantsQ
